@@ -54,6 +54,7 @@ type Solver struct {
 	// process, when the incremental solver answers unknown (portfolio).
 	OneShot          []string
 	OneShotTimeoutMs int
+	Abort            *bool // set when the exploration is being stopped: remaining queries answer unknown at once
 }
 
 const prelude = `
@@ -228,8 +229,12 @@ func (s *Solver) sync(pc []*Term, sorts map[string]Sort) {
 // Check decides satisfiability of pc ∧ extra. If wantModel and the verdict
 // is Sat, the model restricted to vars is returned.
 func (s *Solver) Check(pc []*Term, extra *Term, sorts map[string]Sort, wantModel bool, vars []string) (Verdict, map[string]ModelVal) {
+	if s.Abort != nil && *s.Abort {
+		s.Stats.Unknown++
+		return Unknown, nil
+	}
 	v, m := s.check1(pc, extra, sorts, wantModel, vars)
-	if v == Unknown {
+	if v == Unknown && !(s.Abort != nil && *s.Abort) {
 		for _, kind := range s.OneShot {
 			t0 := time.Now()
 			v2, m2 := oneShot(kind, s.OneShotTimeoutMs, pc, extra, sorts, wantModel, vars)
